@@ -71,3 +71,46 @@ extern "C" void h_typed(void) {
     VF_WITNESS();
   } VF_CATCH
 }
+
+// Size-prefix kernel: a reader that delivers an arbitrary prefix and then checks the size of the container read that follows.
+// The stream is "long enough for anything" and the allocation cap admits every count the prefix type can express, so the only
+// thing that can refuse a negative prefix is the helper's own check.
+template <class Prefix, unsigned Elem> struct PrefixReader : Stream::Reader {
+  int call = 0; int64_t prefix = 0;
+  void ReadImplementation(void* buffer, std::size_t size) override {
+    call++;
+    if (call == 1) { vf_assert(size == sizeof(Prefix), "harness: first read is the prefix"); vf_havoc(buffer, sizeof(Prefix)); Prefix p; memcpy(&p, buffer, sizeof p); prefix = (int64_t)p; }
+    else {
+      vf_assert(prefix >= 0, "negative size prefix reached the container read");
+      vf_assert((uint64_t)size == (uint64_t)prefix * Elem, "container read has prefix x element-size bytes");
+      VF_WITNESS();
+      vf_end();
+    }
+  }
+  std::size_t ReadPartial(void*, std::size_t) noexcept override { return 0; }
+};
+// Model of std::vector<T>::_M_default_append for the kernel (redirected at IR level): grows an EMPTY vector to n elements without the
+// zero fill (the elements stay arbitrary); the allocation goes through operator new and therefore through the allocation cap.
+struct VecRaw { char* start; char* finish; char* eos; };
+static void grow(VecRaw* v, uint64_t n, unsigned elem) {
+  vf_assert(v->start == v->finish, "harness: model only grows an empty vector");
+  if (n > (uint64_t)0x7fffffffffffffff / elem) throw std::length_error("vector::_M_default_append");
+  char* p = static_cast<char*>(::operator new(n * elem));
+  v->start = p; v->finish = p + n * elem; v->eos = p + n * elem;
+}
+extern "C" void stub_default_append_u8(VecRaw* v, uint64_t n) { grow(v, n, 1); }
+extern "C" void stub_default_append_u16(VecRaw* v, uint64_t n) { grow(v, n, 2); }
+extern "C" void stub_default_append_u32(VecRaw* v, uint64_t n) { grow(v, n, 4); }
+extern "C" void h_prefix_kernel(void) {
+  g_may_throw = true;     // refusing (negative prefix, allocation failure) is fine; accepting a negative prefix is not
+  VF_TRY {
+#if OP == 0
+    PrefixReader<int8_t, 1> r; std::vector<uint8_t> v; r.Read<int8_t>(v);
+#elif OP == 1
+    PrefixReader<int8_t, 2> r; std::vector<uint16_t> v; r.Read<int8_t>(v);
+#elif OP == 2
+    PrefixReader<uint8_t, 4> r; std::vector<uint32_t> v; r.Read<uint8_t>(v);
+#endif
+    vf_assert(0, "harness: unreachable");
+  } VF_CATCH
+}
